@@ -233,6 +233,7 @@ let handle (f : string array) : string =
     (match encrypt prims hc (hdr @ eiv @ data) (nat_of_int (List.length eiv)) with
      | Ok (hc', r) -> "ok " ^ hex_of_bytes r ^ " " ^ hex_of_bytes hc'.hc_seq
      | Panic -> "PANIC" | Hang -> "HANG" | Err _ -> "err")
+  | "D" when Array.length f > 10 && f.(10) = "nm" -> "SKIP"   (* implementation + predicate only (quick tier sampling) *)
   | "D" ->
     (* D id suite key mackey iv seq record label want *)
     let hc = mk_hc f.(2) f.(3) f.(4) f.(5) f.(6) in
